@@ -35,15 +35,16 @@ theorem spam_markers :
     isSpam (some (b!"no action")) (some (b!"No, score=0.1")) = false ∧ isSpam (some (b!"greylist")) none = false ∧
     isSpam none none = false := by decide
 
-/-- C17.3 (full statement)  the quota decides acceptance as documented ("Enable quota checking", "Quota limit in bytes"). -/
-def quota_enforced_full : Prop :=
-  ∀ (cfg : Cfg) (usage size : Nat), quotaImpl cfg usage size = true → QuotaDoc cfg usage size
+/-- C17.3  the quota decides acceptance as documented ("Enable quota checking", "Quota limit in bytes"): a recipient is
+refused for its quota exactly when checking is enabled and what its store holds plus the message exceeds the limit. -/
+theorem quota_enforced (cfg : Cfg) (usage size : Nat) : quotaImpl cfg usage size = true ↔ QuotaDoc cfg usage size := by
+  unfold quotaImpl QuotaDoc
+  cases cfg.quotaEnabled <;> simp
 
-/-- …refuted: the code computes and logs the quota and accepts the message anyway (finding C17-F1). -/
-theorem quota_enforced_refuted : ¬ quota_enforced_full := by
-  intro h
-  have := h ⟨[], false, 100, 1000, true, 10, b!"INBOX"⟩ 8 5 rfl
-  simp [QuotaDoc] at this
+/-- the boundary: exactly at the limit is accepted, one octet more is refused -/
+theorem quota_boundary :
+    quotaImpl ⟨[], false, 100, 1000, true, 13, b!"INBOX"⟩ 8 5 = true ∧ quotaImpl ⟨[], false, 100, 1000, true, 12, b!"INBOX"⟩ 8 5 = false ∧
+    quotaImpl ⟨[], false, 100, 1000, false, 1, b!"INBOX"⟩ 8 5 = true := by decide
 
 /-- C17.3'  with quota checking disabled (the default) the quota never refuses anything, as documented. -/
 theorem quota_disabled (cfg : Cfg) (usage size : Nat) (h : cfg.quotaEnabled = false) : QuotaDoc cfg usage size := by
